@@ -37,6 +37,8 @@ var defaultRedirects = map[string]string{
 	"html.EscapeString":                  "golang.org/x/telemetry/internal/vrt.EscapeString",
 	"unicode.IsSpace":                    "golang.org/x/telemetry/internal/vrt.IsSpaceRune",
 	"runtime/debug.ReadBuildInfo":        "golang.org/x/telemetry/internal/vrt.ReadBuildInfo",
+	"(*sync.Pool).Get":                   "golang.org/x/telemetry/internal/vrt.PoolGet",
+	"(*sync.Pool).Put":                   "golang.org/x/telemetry/internal/vrt.PoolPut",
 }
 
 var defaultSkipInit = []string{"unicode", "runtime", "os", "syscall", "internal/poll", "net", "net/http", "crypto/rand", "reflect", "encoding/json", "regexp", "regexp/syntax", "log", "fmt", "flag", "testing", "internal/godebug", "math/rand", "html", "crypto/tls", "crypto/x509"}
